@@ -352,6 +352,25 @@ func Mutators() []Mutator {
 		resignIA(m, &a.Attestation2)
 		return true
 	})
+	// the slashability predicate on its whole small grid: source/target epochs of both attestations (double vote
+	// iff equal targets and different data; surround iff s1 < s2 and t2 < t1 — in THAT order only); the
+	// reference decides which of the 81 pairs are slashable
+	for s1 := uint64(0); s1 < 3; s1++ {
+		for t1 := uint64(2); t1 < 5; t1++ {
+			for s2 := uint64(0); s2 < 3; s2++ {
+				for t2 := uint64(2); t2 < 5; t2++ {
+					s1, t1, s2, t2 := s1, t1, s2, t2
+					asMut(fmt.Sprintf("epochs(source %d target %d | source %d target %d)", s1, t1, s2, t2), func(m *MutCtx, a *refspec.AttesterSlashing) bool {
+						a.Attestation1.Data.Source.Epoch, a.Attestation1.Data.Target.Epoch = s1, t1
+						a.Attestation2.Data.Source.Epoch, a.Attestation2.Data.Target.Epoch = s2, t2
+						resignIA(m, &a.Attestation1)
+						resignIA(m, &a.Attestation2)
+						return true
+					})
+				}
+			}
+		}
+	}
 	asMut("indices-unsorted", func(m *MutCtx, a *refspec.AttesterSlashing) bool {
 		x := a.Attestation1.AttestingIndices
 		if len(x) < 2 {
